@@ -116,7 +116,7 @@ def explore(run):
         return {"found": False, "note": "replay produced no result: %s" % p.stderr[-300:]}
     j = json.loads(lines[-1])
     run.extra["bounded_contract_on_refinement_subtyping"] = {"pairs": j.get("pairs"), "accepted": j.get("accepted"),
-        "universe": "P, Q over the 12 comparison atoms (==, !=, >=, <=) x constants {-1, 0, 2} and all conjunctions and disjunctions of two of them (144 predicates, all pairs)",
+        "universe": "P, Q over the 12 comparison atoms (==, !=, >=, <=) x constants {-1, 0, 2}, all conjunctions and disjunctions of two of them, the strict comparisons < and > (Predicate::lt / gt), the negation (Predicate::invert) of every compound, and the 12 interval types a..b, a<..b, a..<b, a<..<b built by constructors::int_interval (297 refinement types, all pairs)",
         "contract": "accepted => every integer of -6..=8 satisfying P satisfies Q (soundness only)"}
     fds = [{"key": v["pair"], "verdict": "%s, but I = %d satisfies the first predicate and not the second" % (v["pair"], v["witness"]),
             "how": "the real Context::subtype_of on refinement types built with the real Predicate constructors; denotation evaluated independently",
